@@ -9,8 +9,8 @@ import gen
 
 LEVEL = "proof"
 EXPLANATION = ("A theorem cannot range over the whole CLI; what is proved (Props/C16.v) is that the panic sites the property "
-               "anchors are unreachable: the splice loop of apply never panics on any plan whose edits are ordered and "
-               "non-overlapping (stale offsets beyond the file or inside a character yield the content-mismatch error), the "
+               "anchors are unreachable: apply's sort + overlap pre-check + splice loop never panics on ANY edit list (any "
+               "order, duplicated, overlapping, offsets beyond the file or inside a character: Ok or content mismatch), the "
                "tokenizer's fuel never runs out, the literal scan only reports in-range spans, and the exit status computed "
                "by main is one of the documented ones. The rest of the program is covered by search, reported as such: the "
                "modelled functions run under catch_unwind on a malformed stream (invalid UTF-8, NUL, lone CR, long lines, "
@@ -108,6 +108,13 @@ def rand_cmd(r):
 
 def library_stream(R, H, r, fails, stats):
     """modelled functions under catch_unwind on malformed inputs"""
+    ask0 = H.ask
+    last = {}
+
+    def ask(req):
+        last["req"] = req
+        return ask0(req)
+    H = type("HX", (), {"ask": staticmethod(ask)})
     for i in range(300 if R.tier == "quick" else 20000):
         k = r.randrange(6)
         if k == 0:
@@ -129,7 +136,14 @@ def library_stream(R, H, r, fails, stats):
             edits = [{"old": core.hx(r.choice(["old_name", "é", "x"])), "new": core.hx(r.choice(["n", "", "ééé"])),
                       "start": r.choice([0, 1, 2, 3, 5, n - 1, n, n + 5, 10**9]), "end": r.choice([0, 2, 3, 4, 13, n, n + 1, 10**9])}
                      for _ in range(r.randint(1, 2))]
-            edits.sort(key=lambda e: e["start"])
+            # any order, duplicated and overlapping edits (a hand-edited or corrupted plan.json)
+            if r.random() < 0.5:
+                edits.sort(key=lambda e: e["start"])
+            if r.random() < 0.3:
+                edits.append(dict(r.choice(edits)))
+            if r.random() < 0.3:
+                edits = [{"old": core.hx("old_name"), "new": core.hx(r.choice(["n", "ééé"])), "start": 15, "end": 23},
+                         {"old": core.hx("old_name"), "new": core.hx("n"), "start": 6, "end": 14}] + (edits if r.random() < 0.5 else [])
             resp = H.ask({"op": "splice", "content": core.hx(content), "edits": edits})
         else:
             tree = cli.tree_json(make_tree(r))
@@ -137,7 +151,7 @@ def library_stream(R, H, r, fails, stats):
         stats["library_calls"] += 1
         R.case(("lib", i, k), nontrivial=True)
         if "panic" in resp or "crash" in resp:
-            fails.append({"why": "a library function panicked: " + str(resp.get("panic", resp))[:200], "op_kind": k})
+            fails.append({"why": "a library function panicked: " + str(resp.get("panic", resp))[:200], "op_kind": k, "request": last.get("req")})
 
 
 def run(R):
@@ -188,6 +202,13 @@ def run(R):
 
 def replay(R, obj):
     print(json.dumps({k: v for k, v in obj.items() if k != "tree"}, indent=1)[:2500])
+    if "request" in obj:
+        hp, _ = core.build_harness()
+        H = core.Harness([str(hp)])
+        resp = H.ask(obj["request"])
+        H.close()
+        print("harness:", str(resp)[:400])
+        return 1 if ("panic" in resp or "crash" in resp) else 0
     if "args" in obj and "tree" in obj:
         with cli.Sandbox(cli.tree_from_json(obj["tree"])) as sb:
             for args in obj.get("history", [obj["args"]]):
